@@ -507,6 +507,45 @@ static void space3 (long start)
   }
 }
 
+/* ------------------------------------------------------------ space 4 */
+/* the string construction API: every assignment of {a declared name of each class, an undeclared name, the empty
+ * string, NULL} to the operand positions of append_str / append_ds_str / append_dds_str, for opcodes with 1, 2 and 3
+ * sources, two destinations, an accumulator, and an opcode name that does not exist.  Construction must report an
+ * error on the program (not crash); compiling it must classify the result. */
+static void space4 (long start)
+{
+  static const char *names[] = { "d1", "s1", "s2", "t1", "c1", "p1", "a1", "nosuch", "", NULL };
+  static const char *ops[] = { "addw", "copyw", "splitlw", "accw", "loadoffw", "bogus" };
+  int oi, api, a, b, c, t;
+  for (oi = 0; oi < 6; oi++) for (api = 0; api < 3; api++) for (a = 0; a < 10; a++) for (b = 0; b < 10; b++) for (c = 0; c < 10; c++) {
+    long idx = g_idx++;
+    OrcProgram *p;
+    char sig[100], text[200];
+    if (api == 1 && c) continue;	/* append_ds_str has two operands */
+    if (idx < start || (idx % nshards) != shard) continue;
+    snprintf (sig, sizeof (sig), "strapi%d/%s", api, ops[oi]);
+    snprintf (text, sizeof (text), "%s (%s: %s, %s, %s)", api == 0 ? "append_str" : api == 1 ? "append_ds_str" : "append_dds_str", ops[oi],
+        names[a] ? names[a] : "NULL", names[b] ? names[b] : "NULL", names[c] ? names[c] : "NULL");
+    { char key[300]; snprintf (key, sizeof (key), "C05|died|construction|%s", sig); v_case (idx, key, text); }
+    p = orc_program_new ();
+    orc_program_set_name (p, "xc4");
+    orc_program_add_destination (p, 2, "d1");
+    orc_program_add_destination (p, 2, "d2");
+    orc_program_add_source (p, 2, "s1");
+    orc_program_add_source (p, 2, "s2");
+    orc_program_add_temporary (p, 2, "t1");
+    orc_program_add_constant (p, 2, 1, "c1");
+    orc_program_add_parameter (p, 2, "p1");
+    orc_program_add_accumulator (p, 2, "a1");
+    if (api == 0) orc_program_append_str (p, ops[oi], names[a], names[b], names[c]);
+    else if (api == 1) orc_program_append_ds_str (p, ops[oi], names[a], names[b]);
+    else orc_program_append_dds_str (p, ops[oi], names[a], names[b], names[c]);
+    st_programs++;
+    for (t = 0; t < NT; t++) try_compile (p, t, targets[t] ? orc_target_get_default_flags (targets[t]) : 0, 0, sig, text, 0);
+    orc_program_free (p);
+  }
+}
+
 static void worker (long start, void *user)
 {
   int t;
@@ -518,6 +557,7 @@ static void worker (long start, void *user)
   for (t = 0; t < NT; t++) targets[t] = orc_target_get_by_name (tnames[t]);
   if (space == 1) space1 (start);
   else if (space == 2) space2 (start);
+  else if (space == 4) space4 (start);
   else space3 (start);
   v_out ("{\"t\":\"stat\",\"programs\":%ld,\"compiles\":%ld,\"successful\":%ld,\"nonfatal\":%ld,\"fatal\":%ld,\"native_runs\":%ld,\"emulation_runs\":%ld,\"violations_raw\":%ld}",
       st_programs, st_compiles, st_ok, st_fail, st_fatal, st_runs, st_emul, st_viol);
